@@ -16,7 +16,7 @@ MANIFEST = {
             "memusage.expansions of p?gssvx(FACTORED) and for the sp_ienv values cached in p?gstrf_bmod2D.  Correspondence on every run: "
             "probe calls after prefix histories (all singles and pairs quick / triples thorough over 16 kinds of preceding calls in the same "
             "and in other precisions, both memory modes, failed/singular/invalid calls) versus the same probe in a fresh process, compared "
-            "bit for bit at one thread, by exact-rational oracles otherwise; K-exact comparison of the persistent record with the model.",
+            "bit for bit at one thread, by exact-rational oracles otherwise; K-exact comparison of the persistent record with the model.  A user work[] is handed over full of small integers, different for every call, so a read-before-write of it shows as a dependence on history.",
     "technique": "machine-checked proof (Coq 8.16.1) + executed correspondence (extracted OCaml model vs C library, differential fresh-process runs)",
 }
 
